@@ -37,13 +37,17 @@ This file composes the two and removes every law from the statements: for
 
 ## Hypotheses that remain
 
-* `JsonLaws dumps loadsText` — three facts about `json.dumps` / `json.loads` on dicts
-  (Lemmas/ConcreteRun.lean); nothing about codecs;
+* `JsonLaws Dom dumps loadsText` — three facts about `json.dumps` / `json.loads` on the dicts of a
+  domain `Dom` (Lemmas/ConcreteRun.lean; for CPython `Dom` is `Json.Representable`,
+  Model/JsonDom.lean); nothing about codecs;
 * `TreeOk t` — every content section sits in the slot of its class (C05Tree);
 * `TreeDicts t` — the content of a metadata section, when it is a `PyVal.dict j`, has `j` a JSON
   object.  `PyVal.dict` stands for a Python `dict`, but the type allows `.dict (.int 1)`: the model
   writer dumps it and the reader rejects what `json.loads` gives back (`C05_tree_dicts_artefact`).
   No Python program can build such a tree;
+* `TreeDictsIn Dom t` — the content of every metadata section (main, change, file), when it is a
+  `PyVal.dict j`, has `Dom j`: it lies in the domain on which `JsonLaws` is assumed.  (With
+  `Dom := fun _ => True` it is `treeDictsIn_true`.);
 * `b.length ≤ Reader.maxRead` — the bytes fit one `fp.read` (2⁶³ − 1);
 * `0 < cfg.chunk` is a fact (`C05_cfg_chunk_pos`).
 
@@ -68,58 +72,58 @@ open Diffx.RunRT (ProgramLaws)
 theorem C05_cfg_chunk_pos : 0 < Codecs.cfg.chunk := cfg_chunk_pos
 
 section Concrete
-variable (dumps : Json → EnvR Text) (loadsText : Text → EnvR Json) (loadsBytes : Bytes → EnvR Json)
+variable {Dom : Json → Prop} (dumps : Json → EnvR Text) (loadsText : Text → EnvR Json) (loadsBytes : Bytes → EnvR Json)
 
 /-- **Object-model round trip, no hypothesis about codecs.**  For the concrete codecs and the BOM table
-of the repository: for every well-formed tree whose metadata contents are JSON objects, that
-serialises without error (main `encoding` a `str`, version 1.0) to bytes that fit one read,
+of the repository: for every well-formed tree whose metadata contents are JSON objects of the
+domain `Dom` on which the laws of `json` are assumed, that serialises without error (main `encoding` a `str`, version 1.0) to bytes that fit one read,
 parsing the bytes yields exactly `normalisedTree 4 t` — a function of the tree alone. -/
-theorem C05_tree_roundtrip_concrete (hjson : JsonLaws dumps loadsText) (wv : Text) (t : Tree) (b : Bytes)
-    (hk : TreeOk t) (hd : TreeDicts t)
+theorem C05_tree_roundtrip_concrete (hjson : JsonLaws Dom dumps loadsText) (wv : Text) (t : Tree) (b : Bytes)
+    (hk : TreeOk t) (hd : TreeDicts t) (hin : TreeDictsIn Dom t)
     (h : toBytes (Codecs.env dumps loadsText loadsBytes) Codecs.cfg wv t = .ok b)
     (enc : Name) (calls : List Writer.Call)
     (hcalls : toCalls Codecs.cfg.defaultIndent t wv = .ok (some enc, Text.ofAscii b!"1.0", calls))
     (hsize : b.length ≤ Reader.maxRead) :
     fromBytes (Codecs.env dumps loadsText loadsBytes) Codecs.cfg wv b =
       .ok (normalisedTree Codecs.cfg.defaultIndent t) :=
-  tree_roundtrip_concrete dumps loadsText loadsBytes hjson wv t b hk hd h enc calls hcalls hsize
+  tree_roundtrip_concrete dumps loadsText loadsBytes hjson wv t b hk hd hin h enc calls hcalls hsize
 
 /-- **the law-indexed normalised tree of `C05_tree_roundtrip` is `normalisedTree`**, whatever laws
 it is given (in particular `lawsOfAccepted`) -/
-theorem C05_expectedTree_concrete (hjson : JsonLaws dumps loadsText) (wv : Text) (t : Tree) (b : Bytes)
-    (hk : TreeOk t) (hd : TreeDicts t)
+theorem C05_expectedTree_concrete (hjson : JsonLaws Dom dumps loadsText) (wv : Text) (t : Tree) (b : Bytes)
+    (hk : TreeOk t) (hd : TreeDicts t) (hin : TreeDictsIn Dom t)
     (h : toBytes (Codecs.env dumps loadsText loadsBytes) Codecs.cfg wv t = .ok b)
     (enc : Name) (calls : List Writer.Call)
     (hcalls : toCalls Codecs.cfg.defaultIndent t wv = .ok (some enc, Text.ofAscii b!"1.0", calls))
     (laws : ProgramLaws (Codecs.env dumps loadsText loadsBytes) Codecs.cfg enc calls) :
     expectedTree (Codecs.env dumps loadsText loadsBytes) Codecs.cfg wv t enc calls hcalls laws =
       normalisedTree Codecs.cfg.defaultIndent t :=
-  expectedTree_eq dumps loadsText loadsBytes hjson wv t b hk hd h enc calls hcalls laws
+  expectedTree_eq dumps loadsText loadsBytes hjson wv t b hk hd hin h enc calls hcalls laws
 
 /-- **Fixed point, no hypothesis about codecs.**  Re-serialising the normalised tree gives the
 identical bytes. -/
-theorem C06_fixed_point_concrete (hjson : JsonLaws dumps loadsText) (wv : Text) (t : Tree) (b : Bytes)
-    (hk : TreeOk t) (hd : TreeDicts t)
+theorem C06_fixed_point_concrete (hjson : JsonLaws Dom dumps loadsText) (wv : Text) (t : Tree) (b : Bytes)
+    (hk : TreeOk t) (hd : TreeDicts t) (hin : TreeDictsIn Dom t)
     (h : toBytes (Codecs.env dumps loadsText loadsBytes) Codecs.cfg wv t = .ok b)
     (enc : Name) (calls : List Writer.Call)
     (hcalls : toCalls Codecs.cfg.defaultIndent t wv = .ok (some enc, Text.ofAscii b!"1.0", calls))
     (hsize : b.length ≤ Reader.maxRead) :
     toBytes (Codecs.env dumps loadsText loadsBytes) Codecs.cfg wv (normalisedTree Codecs.cfg.defaultIndent t) =
       .ok b :=
-  tree_fixed_concrete dumps loadsText loadsBytes hjson wv t b hk hd h enc calls hcalls hsize
+  tree_fixed_concrete dumps loadsText loadsBytes hjson wv t b hk hd hin h enc calls hcalls hsize
 
 /-- **Parse then re-serialise is the identity on library-produced files** (C06), for the concrete
 codecs: `from_bytes b` succeeds with some tree `t'` and `to_bytes t' = b`. -/
-theorem C06_parse_serialise_concrete (hjson : JsonLaws dumps loadsText) (wv : Text) (t : Tree) (b : Bytes)
-    (hk : TreeOk t) (hd : TreeDicts t)
+theorem C06_parse_serialise_concrete (hjson : JsonLaws Dom dumps loadsText) (wv : Text) (t : Tree) (b : Bytes)
+    (hk : TreeOk t) (hd : TreeDicts t) (hin : TreeDictsIn Dom t)
     (h : toBytes (Codecs.env dumps loadsText loadsBytes) Codecs.cfg wv t = .ok b)
     (enc : Name) (calls : List Writer.Call)
     (hcalls : toCalls Codecs.cfg.defaultIndent t wv = .ok (some enc, Text.ofAscii b!"1.0", calls))
     (hsize : b.length ≤ Reader.maxRead) :
     ∃ t', fromBytes (Codecs.env dumps loadsText loadsBytes) Codecs.cfg wv b = .ok t' ∧
       toBytes (Codecs.env dumps loadsText loadsBytes) Codecs.cfg wv t' = .ok b :=
-  ⟨_, C05_tree_roundtrip_concrete dumps loadsText loadsBytes hjson wv t b hk hd h enc calls hcalls hsize,
-    C06_fixed_point_concrete dumps loadsText loadsBytes hjson wv t b hk hd h enc calls hcalls hsize⟩
+  ⟨_, C05_tree_roundtrip_concrete dumps loadsText loadsBytes hjson wv t b hk hd hin h enc calls hcalls hsize,
+    C06_fixed_point_concrete dumps loadsText loadsBytes hjson wv t b hk hd hin h enc calls hcalls hsize⟩
 
 end Concrete
 
@@ -206,7 +210,7 @@ theorem C05_normalised_options (di : Nat) (o : DOpts) (k : Bytes) :
 
 /-! ## Non-vacuity: a concrete tree, the mock `json` of C01Concrete, closed equations -/
 
-open Diffx.C01 (menv mockDumps mockLoads mockJsonLaws jk j2)
+open Diffx.C01 (menv mockDumps mockLoads mockJsonLaws jk j2 jk_representable j2_representable)
 
 def cver : Text := t!"1.0"
 
@@ -241,6 +245,10 @@ def ctree : Tree :=
 
 theorem ctree_ok : TreeOk ctree := by decide
 theorem ctree_dicts : TreeDicts ctree := by decide
+/-- the metadata contents of the instance tree lie in the domain intended for CPython -/
+theorem ctree_representable : TreeDictsIn (Json.Representable (fun _ => True)) ctree := by
+  simp [TreeDictsIn, changeDictsIn, fileDictsIn, secDictIn, ctree, newMeta, jk_representable, j2_representable,
+    Json.Representable, Json.RepresentableItems, Text.increasing]
 
 /-- the 691 bytes `to_bytes` produces -/
 def cbytes : Bytes :=
@@ -322,7 +330,18 @@ theorem C05_concrete_instance : fromBytes menv Codecs.cfg cver cbytes = .ok cloa
   unfold menv at hb ⊢
   rw [← cnormalised_eq]
   exact C05_tree_roundtrip_concrete mockDumps mockLoads (fun _ => .err) mockJsonLaws cver ctree cbytes ctree_ok
-    ctree_dicts hb t!"utf-8" ccalls ctree_calls hsz
+    ctree_dicts (treeDictsIn_true _) hb t!"utf-8" ccalls ctree_calls hsz
+
+/-- **`C05_tree_roundtrip_concrete` instantiated with the domain intended for CPython**, `Dom :=
+Json.Representable` (`TreeDictsIn` is `ctree_representable`, no longer trivial) -/
+theorem C05_concrete_instance_dom : fromBytes menv Codecs.cfg cver cbytes = .ok cloaded := by
+  have hsz : cbytes.length ≤ Reader.maxRead := by rw [cbytes_length]; decide
+  have hb := ctree_bytes
+  unfold menv at hb ⊢
+  rw [← cnormalised_eq]
+  exact C05_tree_roundtrip_concrete mockDumps mockLoads (fun _ => .err)
+    (mockJsonLaws.mono (Dom' := Json.Representable (fun _ => True)) (fun _ _ => trivial)) cver ctree cbytes ctree_ok
+    ctree_dicts ctree_representable hb t!"utf-8" ccalls ctree_calls hsz
 
 set_option maxRecDepth 65536 in
 /-- … a closed equation that is true by evaluation as well -/
@@ -335,7 +354,7 @@ theorem C06_concrete_instance : toBytes menv Codecs.cfg cver cloaded = .ok cbyte
   unfold menv at hb ⊢
   rw [← cnormalised_eq]
   exact C06_fixed_point_concrete mockDumps mockLoads (fun _ => .err) mockJsonLaws cver ctree cbytes ctree_ok
-    ctree_dicts hb t!"utf-8" ccalls ctree_calls hsz
+    ctree_dicts (treeDictsIn_true _) hb t!"utf-8" ccalls ctree_calls hsz
 
 set_option maxRecDepth 65536 in
 /-- … true by evaluation as well -/
@@ -430,7 +449,7 @@ theorem C05_concrete_instance2 : fromBytes menv Codecs.cfg cver cbytes2 = .ok cl
   unfold menv at hb ⊢
   rw [← cnormalised2_eq]
   exact C05_tree_roundtrip_concrete mockDumps mockLoads (fun _ => .err) mockJsonLaws cver ctree2 cbytes2 ctree2_ok
-    ctree2_dicts hb t!"utf-8" ccalls2 ctree2_calls hsz
+    ctree2_dicts (treeDictsIn_true _) hb t!"utf-8" ccalls2 ctree2_calls hsz
 
 set_option maxRecDepth 65536 in
 /-- … true by evaluation as well -/
@@ -443,7 +462,7 @@ theorem C06_concrete_instance2 : toBytes menv Codecs.cfg cver cloaded2 = .ok cby
   unfold menv at hb ⊢
   rw [← cnormalised2_eq]
   exact C06_fixed_point_concrete mockDumps mockLoads (fun _ => .err) mockJsonLaws cver ctree2 cbytes2 ctree2_ok
-    ctree2_dicts hb t!"utf-8" ccalls2 ctree2_calls hsz
+    ctree2_dicts (treeDictsIn_true _) hb t!"utf-8" ccalls2 ctree2_calls hsz
 
 set_option maxRecDepth 65536 in
 /-- … true by evaluation as well -/
@@ -452,7 +471,8 @@ example : toBytes menv Codecs.cfg cver cloaded2 = .ok cbytes2 := rfl
 /-! ## Why `TreeDicts` is needed (a fact about the plain-data model, not about pydiffx)
 
 `PyVal.dict j` stands for a Python `dict`, but `j : Json` may be any JSON value.  With a `json` that
-dumps the integer `1` (and, vacuously, satisfies `JsonLaws`, which speak of dicts only), a
+dumps the integer `1` (and, vacuously, satisfies `JsonLaws` on every domain — they speak of dicts
+only — while the tree is trivially `TreeDictsIn (fun _ => True)`), a
 "metadata dict" `.dict (.int 1)` is written and the reader rejects what `json.loads` returns. -/
 
 def adumps : Json → EnvR Text
@@ -465,10 +485,10 @@ def atree : Tree :=
   { opts := [(b!"encoding", .str t!"utf-8")], preamble := newPreamble,
     metaSec := ⟨.metadata, [], .dict (.int 1)⟩, changes := [] }
 
-theorem ajsonLaws : JsonLaws adumps (fun _ => .ok (.int 1)) where
-  ascii := fun _ _ h => by cases h
-  noCR := fun _ _ h => by cases h
-  loads := fun _ _ h => by cases h
+theorem ajsonLaws : JsonLaws (fun _ => True) adumps (fun _ => .ok (.int 1)) where
+  ascii := fun _ _ _ h => by cases h
+  noCR := fun _ _ _ h => by cases h
+  loads := fun _ _ _ h => by cases h
 
 set_option maxRecDepth 65536 in
 /-- the ill-typed tree is `TreeOk`, serialises, and the bytes do not parse -/
